@@ -3,6 +3,21 @@
 import json, os, sys
 HERE = os.path.dirname(os.path.dirname(os.path.abspath(__file__)))
 
+# workload classes added after rounds 14-16 of seeded changes (DESIGN.md section 7.4b)
+LATER = {
+ "C02": " Later additions: received messages signed again are emitted with the protected bytes that were signed; signers kept from one received COSE_Sign while the variable receives the next; a refused verification changes nothing about the next one.",
+ "C04": " Later additions: an algorithm mismatch combined with a second defect still yields the mismatch error; two different alg values under two Go spellings of label 1 let nothing proceed.",
+ "C07": " Later additions: repeated identical COSE_Signature entries.",
+ "C08": " Later additions: received messages signed again (emitted protected bytes = signed = received).",
+ "C09": " Later additions: with only the outer raw unprotected bytes discarded, the countersignature layers below come out byte-identical.",
+ "C10": " Later additions: VerifyCountersign0 with no signature argument fails also when the parent's header carries a valid abbreviated countersignature.",
+ "C11": " Later additions: verifiers whose Go type has extra methods (KeyID, Kid, Public, ...).",
+ "C12": " Later additions: hand-made raw unprotected bytes whose values break general header rules; locations of white space only.",
+ "C14": " Later additions: a key-derived signer keeps signing with its key after the Key variable was re-used, wiped or cleared.",
+ "C16": " Later additions: key objects given a key of another curve after the signer/verifier was first used.",
+ "C17": " Later additions: RSA moduli of 8192-16384 bits.",
+ "C20": " Later additions: received objects (both raw buckets present) re-signed by failing signers must not serialise.",
+}
 # id -> (level category, technique, level text, level note, design ref)
 CHECKS = {
  "C02": ("exploration", "runtime monitor: recording spy Signer/Verifier + byte-equality oracle against an independent Sig_structure builder",
@@ -73,6 +88,7 @@ checks, na = [], []
 for pid in props:
     if pid in CHECKS:
         cat, tech, text, note, ref = CHECKS[pid]
+        text += LATER.get(pid, "")
         checks.append({
             "property_id": pid,
             "quick_cmd": "./run %s quick" % pid,
